@@ -73,7 +73,9 @@ def cases(rng, tier):
                   "approve": rng.random() < 0.6, "user": rng.random() < 0.8, "supported": rng.choice([None, None, ["openid", "profile"]]),
                   "secret_param": rng.random() < 0.05, "place": rng.choice(["form", "form", "query", "split"]),
                   "dup": rng.choice([None, None, None, None, "state", "redirect_uri", "client_id", "scope", "response_type", "code_challenge"]),
-                  "require_nonce": rng.random() < 0.3})
+                  "require_nonce": rng.random() < 0.3,
+                  # the request object still carries the resource owner from the consent step (request.user) while the decision is a denial
+                  "user_on_request": rng.random() < 0.3})
         k = repr(sorted(c.items(), key=lambda kv: kv[0]))
         if k in seen:
             continue
@@ -187,6 +189,9 @@ def impl_one(c, framework):
                 srv.consent_view = consent
                 r = ms.fw_call(srv, req, "consent_view", end_user=user)
             return r if isinstance(r, dict) else canon_response(r)
+        if c.get("user_on_request") and framework is None:
+            req.user = store.users[1]
+            req = srv.create_oauth2_request(req)       # the library's own request object, as get_consent_grant leaves it
         r = ms.fw_call(srv, req, "create_authorization_response", grant_user=store.users[1] if c["approve"] else None)
         return canon_response(r)
     except Exception as e:
